@@ -39,7 +39,7 @@ var IterStops = []string{"StopIteration", "StopIteration()", "StopIteration(77)"
 var IterConsumers = []string{
 	"for", "listcomp", "setcomp", "dictcomp", "genexp", "unpack", "starred", "starcall",
 	"list", "tuple", "set", "sum", "min", "max", "sorted", "zipl", "zipr", "map", "filter", "enumerate", "any", "all", "in", "notin", "join",
-	"forbreak", "nestedfor", "listiter", "whilenext", "nextdefault", "sortedkey", "minkey", "maxkey", "sortedrev", "sumstart", "unpacknested", "forunpack", "listofgen", "anygen", "chainfor", "extend", "iadd", "sliceassign",
+	"forbreak", "nestedfor", "listiter", "whilenext", "nextdefault", "sortedkey", "minkey", "maxkey", "sortedrev", "sumstart", "unpacknested", "forunpack", "listofgen", "anygen", "chainfor", "extend", "iadd", "sliceassign", "minkeyfail", "maxkeyfail", "sortedkeyfail",
 }
 
 var iterWrappers = []string{"deleg", "map", "filter", "genexp", "zipl", "enum", "deleg", "zip2", "map2"}
@@ -177,7 +177,7 @@ func GenIter(r *simrt.Rand, excl IterExclude) *IterProg {
 				// sets of tuples and ordering of tuples are not provided by
 				// this tree (outside C05): keep tuple streams away from them
 				switch c {
-				case "set", "setcomp", "sorted", "min", "max", "sum", "join", "filter", "map", "sortedkey", "sortedrev", "minkey", "maxkey", "sumstart", "forunpack", "listofgen", "anygen":
+				case "set", "setcomp", "sorted", "min", "max", "sum", "join", "filter", "map", "sortedkey", "sortedrev", "minkey", "maxkey", "sumstart", "forunpack", "listofgen", "anygen", "minkeyfail", "maxkeyfail", "sortedkeyfail":
 					c = "list"
 				}
 			}
@@ -298,6 +298,20 @@ def gen(tag, n, fail, exc):
             raise exc
     finally:
         log(tag, "fin")
+    return retval(tag)
+def retval(tag):
+    # what a generator returns travels in StopIteration.args / as the yield-from value, whatever its shape
+    k = tag % 6
+    if k == 0:
+        return (tag, "pair")
+    if k == 1:
+        return (tag,)
+    if k == 2:
+        return ()
+    if k == 3:
+        return [tag, (tag, tag)]
+    if k == 4:
+        return None
     return tag * 100 + 99
 def genfin(tag, n, fail, exc):
     log(tag, "start")
@@ -524,6 +538,11 @@ func consumerBody(c, id, g string, v, tag int) string {
 		return one(fmt.Sprintf("%d not in %s", tag*100+v, g))
 	case "join":
 		return one(fmt.Sprintf("\",\".join(map(str, %s))", g))
+	case "minkeyfail", "maxkeyfail", "sortedkeyfail":
+		// the key function raises at its (v%4)-th call: StopIteration or another error
+		fn := map[string]string{"minkeyfail": "min", "maxkeyfail": "max", "sortedkeyfail": "sorted"}[c]
+		exc := []string{"StopIteration", "StopIteration(\"P:s\")", "KeyError(\"P:k\")", "ValueError"}[v%4]
+		return one(fmt.Sprintf("%s(%s, key=mkfn(%d, %d, %s))", fn, g, tag, v%4, exc))
 	case "extend":
 		return fmt.Sprintf("_l = [0]\n_l.extend(%s)\nlog(%s, \"extend\", _l)", g, id)
 	case "iadd":
